@@ -67,3 +67,50 @@ def form_cases():
         for names in itertools.product(P.POOL_NAMES, repeat=k):
             pre = "; ".join("def %s = %s" % (VARS[i], P.POOL_SRC[n]) for i, n in enumerate(names))
             yield "form:" + fname, "form", pre + "; " + text, names
+
+
+def unbound_names_in_modules(ctx, prop, modules, budget=400000, max_ar=2, sample=None):
+    """A bundled module's function must not fail for want of a name: reached as `M->f(...)` after `require M` in a
+    non-legacy interpreter (where only the core names are bound unqualified), no call over the value pool may end in
+    "Symbol '<name>' not defined" for a name the program itself never mentions.  (stat.ckl's geometric_mean used
+    `prod`, which only legacy mode binds unqualified.)"""
+    import re
+    import ckl.functions
+    mod, _ = core.new_interpreter(secure=True, legacy=False)
+    callees = []
+    for m in modules:
+        e = ckl.functions.Environment()
+        try:
+            mod.interpret("require %s" % m, "disc", e)
+            mo = e.get(m)
+        except Exception as ex:  # noqa
+            ctx.violation("%s:module-does-not-load:%s" % (prop, m), "require %s in a non-legacy interpreter: %s" % (m, core.safe_str(ex, 150)), {})
+            continue
+        for member, v in sorted(mo.value.items()):
+            if v.isFunc():
+                callees.append((m, member, list(v.getArgNames())))
+    rng = ctx.rng
+    # names a secure interpreter deliberately leaves unbound (file / process natives) are not "missing"
+    open_it, _ = core.new_interpreter(secure=False, legacy=True)
+    closed_it, _ = core.new_interpreter(secure=True, legacy=True)
+    withheld = set(open_it.base_environment.getSymbols()) - set(closed_it.base_environment.getSymbols())
+    names_ok = [n for n in P.POOL_NAMES if n not in ("input", "output")]     # (their pool sources are legacy spellings)
+    for m, member, argnames in callees:
+        k_max = max_arity(argnames, max_ar)
+        for k in range(0, k_max + 1):
+            tuples = list(itertools.product(names_ok, repeat=k))
+            if sample is not None and len(tuples) > sample:
+                tuples = rng.sample(tuples, sample)
+            for names in tuples:
+                pre = "; ".join("def %s = %s" % (VARS[i], P.POOL_SRC[n]) for i, n in enumerate(names))
+                text = "%srequire %s; %s->%s(%s)" % (pre + "; " if pre else "", m, m, member, ", ".join(VARS[:k]))
+                env = ckl.functions.Environment()
+                o = core.observe(lambda: mod.interpret(text, "unbound", env), budget)
+                ctx.count("qualified_calls")
+                ctx.case(("qualified", m, member, names), nontrivial=True)
+                if o.kind == "rte":
+                    msg = str(getattr(o.exc, "msg", ""))
+                    mm = re.search(r"Symbol '?([A-Za-z_][A-Za-z_0-9]*)'? not defined", msg)
+                    if mm and mm.group(1) not in VARS and mm.group(1) not in text and mm.group(1) not in withheld:
+                        ctx.violation("%s:module-function-needs-unbound-name:%s->%s:%s" % (prop, m, member, mm.group(1)),
+                                      "%s -> %s" % (text, msg[:200]), {"src": text})
